@@ -838,7 +838,7 @@ pub fn build(pl: &Plan) -> Model {
                 r2(tilt),
                 r2(s.rot),
                 [px, py, s.z],
-                vec![P2 { x: 0.0, y: 0.0 }, P2 { x: r2(x1 - x0), y: 0.0 }, P2 { x: r2(x1 - x0), y: s.d }, P2 { x: 0.0, y: s.d }],
+                vec![P2 { x: 0.0, y: 0.0 }, P2 { x: x1 - x0, y: 0.0 }, P2 { x: x1 - x0, y: s.d }, P2 { x: 0.0, y: s.d }],
                 None,
                 None,
             );
